@@ -129,6 +129,13 @@ def basic(B, G, k, l):
     r = cplx.scalar_mult(x, y, out=buf)
     G.fact("scalar_mult.out_is_returned", r is buf, "out= buffer identity")
     cmp(B, G, "scalar_mult(out=)", buf, zx * zy)
+    # a buffer with earlier content (arbitrary symbolic values) is overwritten, and can be reused for the next product
+    dirty, _ = ct(B, "dirty", (k,))
+    r2 = cplx.scalar_mult(x, y, out=dirty)
+    G.fact("scalar_mult.dirty_out_is_returned", r2 is dirty, "out= buffer identity")
+    cmp(B, G, "scalar_mult(out=buffer with earlier content)", dirty, zx * zy)
+    cplx.scalar_mult(y, y, out=dirty)
+    cmp(B, G, "scalar_mult(out=buffer reused)", dirty, zy * zy)
     raises(G, "scalar_mult.out_is_x", RuntimeError, lambda: cplx.scalar_mult(x, y, out=x))
     raises(G, "scalar_mult.out_is_y", RuntimeError, lambda: cplx.scalar_mult(x, y, out=y))
     xi = cplx.scalar_mult(x, cplx.I)
